@@ -824,6 +824,18 @@ func runWorld(o *Out, r *rand.Rand, w *c13world, mutPer, wi int, st *c13stats) {
 				if m, ok := mutateAccountSide(r, w, it, am); ok {
 					runItem(o, m, am, st)
 				}
+				// the same storage node offered under an account that HAS no storage (its storage root is the empty-trie
+				// root), with that account's genuine proof: there is no trie this node could be anchored in
+				if r.Intn(3) == 0 {
+					for _, e := range w.accounts {
+						if e.storage == nil {
+							m := it.clone()
+							m.ah, m.aproof = e.addrHash, w.accts.prove(e.addrHash)
+							runItem(o, m, "under-account-without-storage", st)
+							break
+						}
+					}
+				}
 			}
 		}
 		if a.storage != nil || r.Intn(3) == 0 {
